@@ -1,11 +1,13 @@
 """C02 - every built-in gate is a valid unitary that keeps its textbook identities."""
 import math
+import numbers
 
 import numpy as np
 import sympy
 
 from ..core import Exhausted
 from ..gen import circuits as GC
+from ..gen import real_spellings as RS
 from ..ref import linalg as L
 
 ID = "C02"
@@ -32,7 +34,10 @@ EXPLANATION = (
     "angles is judged by the hook on MatrixFactoryGate.matrix. 'history' cases reach the gates with angles "
     "a, b, a+b and 0 from earlier gate objects (numeric or symbolic templates) by replace_params / bind, "
     "directly or through operations, dagger / controlled / power / exp wrappers and circuits, reading (and "
-    "overwriting the returned copies of) matrices in between; every such gate must satisfy the same clauses."
+    "overwriting the returned copies of) matrices in between; every such gate must satisfy the same clauses. "
+    "'spelling' cases hand the prototypes real values as fractions.Fraction, int / float subclasses, sympy Integer / "
+    "Rational / Float and exact constants, small, tiny and beyond 2**53 / 2**64: the matrix must be computable "
+    "(spell-computable), pass the hook's clauses, and obey the additive law and the zero angle across spellings."
 )
 RULE = (
     "enumerated obligation list over the gate table (27 entries asserted) x {computable+shape, unitary, "
@@ -43,15 +48,25 @@ RULE = (
     "of two symbols), the gates for a, b, a+b, 0 derived from any earlier gate object of the case by "
     "replace_params / bind (plain, via GateOperation, Dagger, ControlledGate, Power, Exponential, Circuit; "
     "numeric -> symbolic -> numeric chains; two-step binds) with matrix reads and caller-side overwrites of the "
-    "returned matrices interleaved, every gate re-read at the end; non-trivial = parametric gate at a "
+    "returned matrices interleaved, every gate re-read at the end; 'spelling': every parametric gate x every "
+    "spelling of a real number (int, float, subclasses of both, fractions.Fraction, sympy Integer / Rational / "
+    "Float at 15 and 30 digits, exact real constants) enumerated first, then random gates with parameters in "
+    "random spellings over magnitudes 1e-30 .. 2**501 (integers beyond 2**53 / 2**63 / 2**64 with at most 53 "
+    "significant bits), the additive law with a, b and the exact sum a+b in three independent spellings (b a "
+    "neighbour of a at the resolution of a float, -a, or unrelated), zero in 12 spellings; "
+    "non-trivial = parametric gate at a "
     "non-special parameter, a symbolic obligation or a history; distinct = distinct canonical case strings"
 )
 ASSUMPTIONS = [
     "sympy simplify/expand/rewrite are sound (a closed symbolic obligation is additionally confirmed at 64 random real points < 1e-10)",
-    "parameters are Python int/float or sympy objects; numpy scalars cannot be ingested by sympy 1.9 (environment)",
+    "parameters are numbers.Real instances (int, float, fractions.Fraction and subclasses; not bool) or sympy objects; "
+    "numpy scalars cannot be ingested by sympy 1.9 (environment)",
+    "an angle is a binary64 quantity for the library (it divides / multiplies the parameter in the type it was handed: "
+    "Python int / 2, 1j * angle), so the additive law is demanded for a, b, a+b that 53 bits hold (to 1e-12 absolutely) "
+    "and magnitudes stay below 2**501 (<= ~1e3 for the factories that add several angles: U3, MS); matrices of exact parameters above 2**40 are evaluated with log10|p| + 25 digits",
 ]
 DECIDING = ["MFG.matrix", "sym-unitary", "sym-grouplaw", "fixed-relation", "num-grouplaw", "table-size", "hist-grouplaw",
-            "hist-zero-angle"]
+            "hist-zero-angle", "spell-computable", "spell-grouplaw", "spell-zero-angle"]
 EXHAUSTIVE = {"sym": "all (gate, obligation) pairs over the 27-entry gate table on symbolic real parameters",
               "fixed": "the fixed relations named in the property", "grid": "every gate at the special-angle grid",
               "group_int": "the additive law a,b -> a+b for every one-parameter group gate at all integer angle pairs "
@@ -65,7 +80,7 @@ GRID = [0, math.pi / 4, -math.pi / 4, math.pi / 2, -math.pi / 2, math.pi, -math.
 
 
 def classes(tier):
-    return ["sym", "fixed", "grid", "num_random", "num_group", "group_int", "history"]
+    return ["sym", "fixed", "grid", "num_random", "num_group", "group_int", "history", "spelling"]
 
 
 # ------------------------------------------------------------------ CAS pipeline
@@ -119,12 +134,19 @@ def residual_status(R, symbols, nprng):
 
 # ------------------------------------------------------------------ monitor
 def _is_real_number(p):
-    if isinstance(p, bool):
+    """a real parameter value in any spelling the library's Parameter type (sympy object or numbers.Number)
+    admits; numpy scalars are left out (sympy 1.9 cannot ingest them: environment), bool is not an angle"""
+    if isinstance(p, (bool, np.generic, np.ndarray)):
         return False
-    if isinstance(p, (int, float)):
-        return math.isfinite(p)
-    if isinstance(p, sympy.Expr) and p.is_number and p.is_real:
+    if isinstance(p, sympy.Expr):
+        return bool(p.is_number and p.is_real)
+    if isinstance(p, numbers.Rational):  # int, fractions.Fraction and subclasses: finite, however large
         return True
+    if isinstance(p, numbers.Real):  # float and subclasses
+        try:
+            return math.isfinite(p)
+        except (TypeError, ValueError, OverflowError):
+            return False
     return False
 
 
@@ -156,7 +178,7 @@ def _post_matrix(mon, call):
         mon.violation("matrix-shape", f"{gate.name}{gate.params}: shape {M.shape}, declares {gate.num_qubits} qubits")
         return
     try:
-        A = GC.to_np(M)
+        A = _to_np_precise(M, gate.params)
     except (TypeError, ValueError):
         # all parameters are real numbers, yet the matrix does not evaluate to numbers (left-over symbols)
         free = sorted(map(str, getattr(M, "free_symbols", ())))
@@ -268,8 +290,12 @@ def _real_value(rng):
         return rng.uniform(-10, 10)
     if u < 0.8:
         return rng.randint(-6, 6)
-    if u < 0.9:
+    if u < 0.87:
         return rng.choice(GRID)
+    if u < 0.94:
+        # the same kind of value in the other types a caller holds real numbers in (moderate magnitudes: the
+        # driver forms a+b in the arithmetic of these types)
+        return RS.rand_spelled(rng, magnitude=rng.choice(("moderate", "dyadic", "small_int")))[0]
     return sympy.Rational(rng.randint(-8, 8), rng.randint(1, 6)) * rng.choice((sympy.pi, 1))
 
 
@@ -416,7 +442,11 @@ def _history_case(ctx):
     ctx.describe(f"history {name} targets={targets} g0={name}{template['params']}; " + "; ".join(show(s) for s in steps), True)
     ctx.mon.note(f"history:template-{template['kind']}")
     d = 2 ** tab[name]["nq"]
-    gates = [_make(name, template["params"])]
+    try:
+        gates = [_make(name, template["params"])]
+    except Exception as ex:
+        ctx.check("hist-computable", False, f"{name}{template['params']!r}: {type(ex).__name__} {ex}")
+        return
     reads = {lab: [] for lab in targets}
 
     def read(i, overwrite):
@@ -475,6 +505,124 @@ def _history_case(ctx):
                       f"from read #{wi[2]} of angle a+b={targets['a+b'][0]!r} by {worst}; history: {ctx.desc}")
     z = max(L.maxdiff(Z, np.eye(d)) for Z in reads["0"])
     ctx.check("hist-zero-angle", z <= 1e-12, f"{name}({targets['0'][0]!r}) differs from the identity by {z}; history: {ctx.desc}")
+
+
+# ------------------------------------------------------------------ real values in every spelling
+# "Every real value of its parameters": the library's Parameter type is "sympy object or numbers.Number", so the
+# real number 3/4 reaches a gate as 0.75, Fraction(3, 4), sympy.Rational(3, 4), sympy.Float(0.75), an int / float
+# subclass ...; integers also beyond 2**53 (no float holds them) and beyond the float range.  A 'spelling' case
+# makes a gate from parameters in these types (the first cases enumerate gate x spelling), and for the group
+# gates demands the additive law with a, b and the EXACT sum a+b in three independently chosen spellings (b often
+# +-1, +-2 next to a big a: the neighbours that a conversion to float or a key derived from one cannot tell
+# apart) and the zero angle in a random spelling of zero.
+ZEROS = [0, 0.0, -0.0, RS.Fraction(0), sympy.Integer(0), sympy.Float(0), sympy.Float(0, 30), RS.IntSub(0),
+         RS.FloatSub(0.0), sympy.Rational(0, 5), 0 * sympy.pi, RS.Fraction(0, 7)]
+
+
+def _to_sym_exact(p):
+    if isinstance(p, sympy.Expr) and not isinstance(p, sympy.Float):
+        return p
+    v = RS.exact_of(p)
+    return sympy.Rational(v.numerator, v.denominator)
+
+
+def _to_np_precise(M, params):
+    """numeric sympy Matrix -> complex ndarray, evaluated with enough digits that an entry such as
+    exp(I*r) / cos(r) with an exact r of magnitude 2**100 is reduced correctly (own conversion)"""
+    big = 0
+    for p in params:
+        try:
+            big = max(big, abs(int(p)).bit_length())
+        except (TypeError, ValueError, OverflowError):
+            pass
+    if big <= 40:
+        return GC.to_np(M)
+    digits = 25 + int(big * 0.30103) + 1
+    return np.array([[complex(sympy.N(e, digits)) for e in row] for row in M.tolist()], dtype=complex)
+
+
+def _spelling_case(ctx):
+    tab = GC.builtin_table()
+    rng = ctx.rng
+    parametric = sorted(n for n in tab if tab[n]["nparams"])
+    combos = [(n, k) for k in RS.KINDS for n in parametric]
+    if ctx.index < len(combos):
+        name, kind = combos[ctx.index]  # every parametric gate in every spelling (all its parameters alike)
+    else:
+        kind = None
+        if rng.random() < 0.65:
+            name = rng.choice(GROUP_GATES)
+        else:
+            name = rng.choices(parametric, weights=[1 if tab[n]["nparams"] >= 3 else 5 for n in parametric])[0]
+    e = tab[name]
+    d = 2 ** e["nq"]
+
+    def mat(params, what):
+        """the numeric matrix of the gate made by the prototype, or None after recording why there is none"""
+        try:
+            M = _make(name, params).matrix  # unitarity, shape, flag => Hermitian: judged by the hook
+        except Exception as ex:
+            ctx.check("spell-computable", False,
+                      f"{name}({', '.join(RS.show(p) for p in params)}) [{what}]: {type(ex).__name__}: {ex}")
+            return None
+        ctx.check("spell-computable", True)
+        try:
+            return _to_np_precise(M, params)
+        except (TypeError, ValueError):
+            ctx.mon.note("spelling:matrix-not-numeric")  # reported by the hook
+            return None
+
+    if name not in GROUP_GATES:
+        # a factory that combines several angles (U3: phi + lambda, MS: phi0 +- phi1) does so in binary64: the
+        # phases it returns are good to ulp(largest angle), so its angles stay moderate (as in the grid: <= ~1e3)
+        mags = (None,) if e["nparams"] == 1 else ("moderate", "dyadic", "small_int", "tiny", "zero")
+        params = tuple(RS.rand_spelled(rng, kind, rng.choice(mags))[0] for _ in range(e["nparams"]))
+        ctx.describe(f"spelling {name}({', '.join(RS.show(p) for p in params)})", True)
+        for p in params:
+            ctx.mon.note(f"spelling:{type(p).__name__}")
+        mat(params, "params")
+        return
+    a, ka = RS.rand_spelled(rng, kind)
+    if ka == "sconst":
+        b = RS.rand_spelled(rng, magnitude=rng.choice(("moderate", "dyadic", "small_int", "tiny", "zero")))[0]
+        c = _to_sym_exact(a) + _to_sym_exact(b)  # exact constants and rationals
+        if c.is_Rational:
+            v = RS.Fraction(int(c.p), int(c.q))
+            c = RS.spell(v, rng.choice(RS.kinds_for(v)))
+    else:
+        # the library does its arithmetic on an angle in the type it was handed (Python int / float: 53 bits),
+        # so a, b and the exact sum a+b are values that 53 bits hold (to 1e-12 absolutely)
+        va = RS.exact_of(a)
+        for attempt in range(6):
+            u = rng.random()
+            if attempt == 5 or u < 0.12:
+                vb = -va
+            elif u < 0.55 or attempt >= 3:
+                vb = RS.rand_neighbour(rng, va)  # for a big a: values that agree in their leading bits
+            else:
+                vb = RS.exact_of(RS.rand_spelled(rng, rng.choice(RS.EXACT_KINDS))[0])
+            if RS.float_exact_enough(va + vb):
+                break
+        b = RS.spell(vb, rng.choice(RS.kinds_for(vb)))
+        vc = va + RS.exact_of(b)
+        c = RS.spell(vc, rng.choice(RS.kinds_for(vc))) if RS.float_exact_enough(vc) else None
+    if rng.random() < 0.5:
+        a, b = b, a
+    z = rng.choice(ZEROS)
+    ctx.describe(f"spelling {name} a={RS.show(a)} b={RS.show(b)} a+b={RS.show(c)} zero={RS.show(z)}", True)
+    for p in (a, b, c):
+        ctx.mon.note(f"spelling:{type(p).__name__}")
+    if any(isinstance(p, (int, RS.Fraction)) and abs(p) > 2 ** 53 for p in (a, b, c)):
+        ctx.mon.note("spelling:beyond-2**53")
+    A, B, Z = mat((a,), "a"), mat((b,), "b"), mat((z,), "zero")
+    C = mat((c,), "a+b") if c is not None else None
+    if A is not None and B is not None and C is not None:
+        dd = L.maxdiff(A @ B, C)
+        ctx.check("spell-grouplaw", dd <= 1e-9,
+                  f"{name}({RS.show(a)})*{name}({RS.show(b)}) differs from {name}({RS.show(c)}) [the exact sum] by {dd}")
+    if Z is not None:
+        dz = L.maxdiff(Z, np.eye(d))
+        ctx.check("spell-zero-angle", dz <= 1e-12, f"{name}({RS.show(z)}) differs from the identity by {dz}")
 
 
 def run_case(ctx):
@@ -619,5 +767,8 @@ def run_case(ctx):
         return
     if cls == "history":
         _history_case(ctx)
+        return
+    if cls == "spelling":
+        _spelling_case(ctx)
         return
     raise ValueError(cls)
